@@ -22,6 +22,8 @@ pub struct FileStack {
     stack: Vec<PathBuf>,
     /// The include statements which refer to a file, each with the file it occurs in.
     included_from: HashMap<PathBuf, Vec<(Include, PathBuf)>>,
+    /// The include statements which could not be resolved, each with the file it occurs in.
+    unresolved: Vec<(Include, PathBuf)>,
 }
 
 #[derive(Debug)]
@@ -43,6 +45,7 @@ impl FileStack {
             libraries: Vec::new(),
             stack: Vec::new(),
             included_from: HashMap::new(),
+            unresolved: Vec::new(),
         };
         result.add_libraries(libs, reports);
         result.add_files(paths, reports);
@@ -167,6 +170,9 @@ impl FileStack {
             }
         }
 
+        if let Some(file) = &self.current_file {
+            self.unresolved.push((include.clone(), file.clone()));
+        }
         let error = IncludeError {
             path: include.path.clone(),
             file_id: include.meta.file_id,
@@ -201,6 +207,12 @@ impl FileStack {
     fn add_included_from(&mut self, path: &PathBuf, include: &Include) {
         let file = self.current_file.clone().expect("parsing file");
         self.included_from.entry(path.clone()).or_default().push((include.clone(), file));
+    }
+
+    /// Returns the include statements which could not be resolved, each with the file it
+    /// occurs in.
+    pub fn unresolved(&self) -> &[(Include, PathBuf)] {
+        &self.unresolved
     }
 
     /// Returns the include statements through which the file is reached, if the file is not
